@@ -201,6 +201,14 @@ def hostile(rng, S):
             ('sibling-boxes:conj', ((op('Conjunction', op(P, op(N, A)), op(P, op(N, neg(A)))),), B)),
             ('sibling-boxes:3', ((op(P, op('Conjunction', op(N, A), C)), op(P, op('Conjunction', op(N, neg(A)), B)), op(P, op(N, op('Conjunction', A, B)))), op(N, C))),
             ('sibling-boxes:deep', ((op(N, op(P, op(N, A))), op(P, op(P, op(N, neg(A))))), B)),
+            # a fork while a boxed world has no successor yet; one sibling then gives it one (copies must not share it)
+            ('fork-under-box', ((op(P, op('Conjunction', op(N, A), op('Disjunction', B, op(P, C)))),), op(N, B))),
+            ('fork-under-box:2', ((op(P, op('Conjunction', op(N, neg(C)), op('Disjunction', B, op(P, C)))), op(P, B)), neg(A))),
+            ('fork-under-box:3', ((op(P, op(N, A)), op('Disjunction', op(P, B), op(P, op(P, neg(A))))), C)),
+            # ... and where a sibling owns a world of the same number holding the opposite: a leaked access pair closes it
+            ('fork-under-box:flip:1', ((op(P, op('Conjunction', op(N, neg(C)), op('Disjunction', B, op(P, A)))), op(P, C), op(N, op(N, neg(A)))), syn.atom(3))),
+            ('fork-under-box:flip:2', ((op(N, op(N, neg(A))), op(P, op('Conjunction', op(N, neg(C)), op('Disjunction', B, op(P, A)))), op(P, C)), syn.atom(3))),
+            ('fork-under-box:flip:3', ((op(P, C), op(P, op('Conjunction', op(N, neg(C)), op('Disjunction', B, op(P, A)))), op(N, op(N, neg(A)))), syn.atom(3))),
             ('several-leafworlds', ((op(P, A), op(P, B), op(P, C), op(N, op('Disjunction', A, op('Disjunction', B, C)))), op(N, A))),
         ]
         # proofs that run up to the projected world limit: a necessarily-possibly multiplier, k extra possibility
